@@ -55,7 +55,7 @@ SubReads(P, subs, S, pos) ==
           ELSE ReadsE(P, subs[i], S, pos)], Len(subs))
 AllElemReads(S, name) == LET a == S.env[name]
                              order == ColMajor(a.lb, a.ub, Len(a.lb))
-                         IN [k \in 1..Len(order) |-> RD(S, name, order[k])]
+                         IN TLCEval([k \in 1..Len(order) |-> RD(S, name, order[k])])
 
 \* the read events of evaluating e (every operand is evaluated: the machine has no short-circuit)
 ReadsE(P, e, S, pos) ==
@@ -67,7 +67,7 @@ ReadsE(P, e, S, pos) ==
               ELSE LET a == S.env[r.name] IN
                    IF r.k = "var"
                    THEN (IF a.t = "arr"
-                         THEN (IF Len(pos) = Len(a.lb) THEN <<RD(S, r.name, [d \in 1..Len(pos) |-> a.lb[d] + pos[d] - 1])>> ELSE <<>>)
+                         THEN (IF Len(pos) = Len(a.lb) THEN <<RD(S, r.name, TLCEval([d \in 1..Len(pos) |-> a.lb[d] + pos[d] - 1]))>> ELSE <<>>)
                          ELSE <<RD(S, r.name, <<>>)>>)
                    ELSE IF a.t # "arr" THEN <<>>
                    ELSE LET x == SubIdx(P, a, r.c, S.env, pos, 1, 1) IN
@@ -100,11 +100,11 @@ AssignEvents(P, S, lhs0, rhs, masked, cm) ==
       shape == LhsShape(P, S, lhs)
   IN IF shape = <<>>
      THEN ReadsE(P, rhs, S, <<>>) \o SubReads(P, subs, S, <<>>)
-          \o <<WR(S, lhs.name, IF lhs.k = "var" THEN <<>> ELSE SubIdx(P, tgt, subs, S.env, <<>>, 1, 1).ix)>>
+          \o <<WR(S, lhs.name, IF lhs.k = "var" THEN <<>> ELSE TLCEval(SubIdx(P, tgt, subs, S.env, <<>>, 1, 1).ix))>>
      ELSE LET ps == SetToSeq(IF masked THEN PosSet(shape) \cap cm ELSE PosSet(shape))
-              ixof(p) == IF whole THEN [d \in 1..Len(p) |-> tgt.lb[d] + p[d] - 1] ELSE SubIdx(P, tgt, subs, S.env, p, 1, 1).ix
+              ixof(p) == TLCEval(IF whole THEN [d \in 1..Len(p) |-> tgt.lb[d] + p[d] - 1] ELSE SubIdx(P, tgt, subs, S.env, p, 1, 1).ix)
           IN CatN([k \in 1..Len(ps) |-> ReadsE(P, rhs, S, ps[k])], Len(ps)) \o SubReads(P, subs, S, <<>>)
-             \o [k \in 1..Len(ps) |-> WR(S, lhs.name, ixof(ps[k]))]
+             \o TLCEval([k \in 1..Len(ps) |-> WR(S, lhs.name, ixof(ps[k]))])
 
 AssignL(P, u, S, lhs, rhs) ==
   LET S2 == Assign(P, u, S, lhs, rhs) IN
@@ -317,10 +317,10 @@ CallUnitL(P, cal, actuals, S) ==
             a == S.env[r.name]
             dd == Decl(cal, ev.v)
         IN IF r.k = "var"
-           THEN Ev(ev.e, 0, r.name, IF a.t = "arr" THEN [k \in 1..Len(ev.ix) |-> ev.ix[k] - dd.dims[k][1] + a.lb[k]] ELSE <<>>, S.d)
-           ELSE Ev(ev.e, 0, r.name, SubIdx(P, a, r.c, S.env, <<>>, 1, 1).ix, S.d)
+           THEN Ev(ev.e, 0, r.name, IF a.t = "arr" THEN TLCEval([k \in 1..Len(ev.ix) |-> ev.ix[k] - dd.dims[k][1] + a.lb[k]]) ELSE <<>>, S.d)
+           ELSE Ev(ev.e, 0, r.name, TLCEval(SubIdx(P, a, r.c, S.env, <<>>, 1, 1).ix), S.d)
       trs == SelectSeq(R.log, Translatable)
-      post == <<Ev("X", cal.bid, "", <<>>, dp), Ev("G", 0, cal.name, <<>>, dp)>> \o [k \in 1..Len(trs) |-> Translate(trs[k])]
+      post == <<Ev("X", cal.bid, "", <<>>, dp), Ev("G", 0, cal.name, <<>>, dp)>> \o TLCEval([k \in 1..Len(trs) |-> Translate(trs[k])])
       fulllog == S.log \o pre \o R.log \o post
   IN
   IF argerr # {} THEN [st |-> "err", why |-> "argument-evaluation", env |-> S.env, out |-> S.out, ret |-> Undef, log |-> S.log]
